@@ -17,6 +17,7 @@
    is explicit (`trunc T`).  Array writes are modelled as functional updates of the caller's buffer
    in program order (scatter), array reads as nth.  *)
 From LanceV Require Import Common.Base.
+From Coq Require Export Uint63.   (* only for the wire format of the correspondence checkers, at the end *)
 Local Open Scope N_scope.
 
 Definition FL_ORDER : list N := [0; 4; 2; 6; 1; 5; 3; 7].
@@ -135,28 +136,47 @@ Definition unchecked_unpack (T W : N) (packed out0 : list N) : outcome (list N) 
   else if W =? 0 then Ok (map (fun _ => 0) out0)           (* output.fill(0) *)
   else Ok (scatter out0 (unpack_writes T W packed)).
 
-(* ---------------- correspondence checkers ---------------- *)
+(* ---------------- correspondence checkers ----------------
+   Wire format of the value lists in the case files: primitive 63-bit integer literals (coqc parses them
+   ~30x faster than N literals); for T = 64 every value is two consecutive integers (low 32 bits, high
+   32 bits).  Only the checkers below use primitive integers. *)
+Definition n_of_int (i : PrimInt63.int) : N := Z.to_N (Uint63.to_Z i).
+
+Fixpoint wide_of_ints (l : list PrimInt63.int) : list N :=
+  match l with
+  | lo :: hi :: r => (n_of_int lo + 4294967296 * n_of_int hi) :: wide_of_ints r
+  | _ => []
+  end.
+
+Definition vals_of_wire (T : N) (l : list PrimInt63.int) : list N :=
+  if T =? 64 then wide_of_ints l else map n_of_int l.
+
 Definition nlist_eqb := list_eqb N.eqb.
 
 (* sparse, lossless encoding of a recorded output relative to a reference list of the same length:
    the recorded list is `patch ref diffs` *)
 Definition patch (ref : list N) (diffs : list (N * N)) : list N := scatter ref diffs.
 
-(* pack: input (T, W, values, length and fill byte of the output buffer);
+Definition wire_outcome (T : N) (o : outcome (list PrimInt63.int)) : outcome (list N) :=
+  match o with Ok l => Ok (vals_of_wire T l) | Err => Err | Panic => Panic end.
+
+(* pack: input (T, W, values, length and fill value of the output buffer);
    recorded: the output buffer after the call *)
-Definition chk_fl_pack (i : N * N * list N * (N * N)) (o : outcome (list N)) : bool :=
+Definition chk_fl_pack (i : N * N * list PrimInt63.int * (N * N)) (o : outcome (list PrimInt63.int)) : bool :=
   let '(T, W, input, (olen, fill)) := i in
-  outcome_eqb nlist_eqb (unchecked_pack T W input (repeat fill (N.to_nat olen))) o.
+  outcome_eqb nlist_eqb (unchecked_pack T W (vals_of_wire T input) (repeat fill (N.to_nat olen))) (wire_outcome T o).
 
 (* unpack: input (T, W, packed words, length and fill of the output buffer); recorded: output buffer *)
-Definition chk_fl_unpack (i : N * N * list N * (N * N)) (o : outcome (list N)) : bool :=
+Definition chk_fl_unpack (i : N * N * list PrimInt63.int * (N * N)) (o : outcome (list PrimInt63.int)) : bool :=
   let '(T, W, packed, (olen, fill)) := i in
-  outcome_eqb nlist_eqb (unchecked_unpack T W packed (repeat fill (N.to_nat olen))) o.
+  outcome_eqb nlist_eqb (unchecked_unpack T W (vals_of_wire T packed) (repeat fill (N.to_nat olen))) (wire_outcome T o).
 
 (* pack then unpack in one case (halves the literal volume): recorded = (packed words,
    differences between the unpacked output and the input values) *)
-Definition chk_fl_roundtrip (i : N * N * list N * N) (o : list N * list (N * N)) : bool :=
+Definition chk_fl_roundtrip (i : N * N * list PrimInt63.int * N) (o : list PrimInt63.int * list (N * N)) : bool :=
   let '(T, W, input, fill) := i in
   let '(packed, diffs) := o in
+  let input := vals_of_wire T input in
+  let packed := vals_of_wire T packed in
   outcome_eqb nlist_eqb (unchecked_pack T W input (repeat fill (N.to_nat (packed_len T W)))) (Ok packed)
   && outcome_eqb nlist_eqb (unchecked_unpack T W packed (repeat fill 1024)) (Ok (patch input diffs)).
